@@ -31,6 +31,9 @@ LEVEL_TEXT = (
 )
 LEVEL_NOTE = "Trusted: the per-format key functions (documented equivalences), Hypothesis. No reference digests are needed here."
 TECHNIQUE = "Hypothesis property-based testing with metamorphic near-miss oracle over every registered hasher"
+#: thorough tier: seed-dependent tasks are repeated under this many derived seeds (run.py); the listed task functions enumerate fixed domains
+THOROUGH_REPS = 2
+DETERMINISTIC_FNS = ()
 
 
 def selftest():
@@ -121,8 +124,8 @@ def o_roundtrip(rec: Recorder, case, soft=False):
         return
     differing = 0
     for label, q in misses:
-        if len(q) > 4096:
-            continue  # beyond the library-wide maximum: refused with PasswordSizeError (C05)
+        if len(q) > 4096 or (isinstance(q, str) and len(q.encode("utf-8", "surrogatepass")) > 4096):
+            continue  # beyond the library-wide maximum (counted in characters or, after encoding, in bytes): PasswordSizeError is decided by C05
         if f.maxlen is not None and len(q.encode() if isinstance(q, str) else q) > f.maxlen:
             expect = False
         else:
